@@ -521,9 +521,7 @@ func init() {
 	m["errors.As"] = func(in *Interp, fr *Frame, args []Value, call *ssa.CallCommon) Value {
 		return mkBool(in.errorsAs(args[0].(Iface), args[1].(Iface), 0))
 	}
-	m["errors.Join"] = func(in *Interp, fr *Frame, args []Value, call *ssa.CallCommon) Value {
-		panic(inconclusive("errors.Join"))
-	}
+	// errors.Join is interpreted from the standard library's source (joinError has Unwrap() []error, which errorsIs follows)
 }
 
 func (in *Interp) errorsIs(err, target Iface, depth int) bool {
